@@ -200,17 +200,44 @@ func toBinlog(def fakesql.TableDef, database string, evs []fakesql.Event, tids m
 	return out
 }
 
-func absOrNone(r []driver.Value) map[string]string {
+// absRow is sqlzoo.Abs of a stored row of a table that may have columns the struct does not (legacy, extra).
+func absRow(def fakesql.TableDef, r []driver.Value) map[string]string {
 	if r == nil {
 		return noRow
 	}
-	return sqlzoo.Abs(r)
+	base := make([]driver.Value, len(sqlzoo.Def.Cols))
+	for i, c := range sqlzoo.Def.Cols {
+		for j, dc := range def.Cols {
+			if dc.Name == c.Name {
+				base[i] = r[j]
+			}
+		}
+	}
+	return sqlzoo.Abs(base)
+}
+
+// defWithLegacy is the zoo's table with one more column the struct knows nothing about, in front of the last
+// column (whose values a text column's values could pass for).
+func defWithLegacy() fakesql.TableDef {
+	d := sqlzoo.Def
+	k := len(d.Cols) - 1
+	cols := append([]fakesql.ColDef{}, d.Cols[:k]...)
+	cols = append(cols, fakesql.ColDef{Name: "legacy", Type: fakesql.Text, Nullable: true})
+	d.Cols = append(cols, sqlzoo.Def.Cols[k:]...)
+	return d
 }
 
 func runScenario(r *rand.Rand, scn int, nq, nwrites int, garble bool) ([]Ev, error) {
 	s := &scenario{scn: scn, byRes: map[interface{}]*query{}, byRR: map[interface{}]*query{}, tids: map[string]uint64{}}
 	s.cond = sync.NewCond(&s.mu)
-	fdb := fakesql.New("zoo", sqlzoo.Def)
+	// half of the scenarios start with a table that has a legacy column in front of its last column (dropped later, maybe)
+	legacy := r.Intn(2) == 0
+	tdef := sqlzoo.Def
+	if legacy {
+		tdef = defWithLegacy()
+	}
+	dropDirected := legacy && scn%3 == 1
+	fdb := fakesql.New("zoo", tdef)
 	s.fdb = fdb
 	conn := fdb.Open()
 	db := sqlgen.NewDB(conn, sqlzoo.Schema())
@@ -224,13 +251,18 @@ func runScenario(r *rand.Rand, scn int, nq, nwrites int, garble bool) ([]Ev, err
 	}
 	reset := Ev{Ev: "reset", Filter: map[string]map[string]sqlzoo.FVal{}}
 	for _, row := range fdb.Snapshot(sqlzoo.Table) {
-		reset.Rows = append(reset.Rows, sqlzoo.Abs(row))
+		reset.Rows = append(reset.Rows, absRow(tdef, row))
 	}
 	// queries with distinct filters
 	seen := map[string]bool{}
 	for len(s.queries) < nq {
 		f, a := sqlzoo.RandomFilter(r, []string{"id", "org", "name", "age", "nick", "kind", "small", "note", "blob"})
-		if len(s.queries) == 0 && scn%2 == 0 {
+		if len(s.queries) == 0 && dropDirected {
+			// directed (legacy table): a live query on the last column's value 'k'; the first write inserts such a row,
+			// the column in front of it is dropped while that change event is still on its way
+			fv := sqlzoo.FVal{Rep: "bytes", V: "k"}
+			f, a = sqlgen.Filter{"blob": sqlzoo.Go("blob", fv)}, map[string]sqlzoo.FVal{"blob": fv}
+		} else if len(s.queries) == 0 && scn%2 == 0 {
 			// directed: a query that only the last row can match, so that a statement changing several rows
 			// reaches it through the last row images of its rows event alone
 			fv := sqlzoo.FVal{Rep: "int64", V: fmt.Sprint(nrows)}
@@ -357,7 +389,7 @@ func runScenario(r *rand.Rand, scn int, nq, nwrites int, garble bool) ([]Ev, err
 			ids := []string{}
 			got := []map[string]string{}
 			for _, row := range st.Hit {
-				a := sqlzoo.Abs(row[:len(sqlzoo.Def.Cols)])
+				a := absRow(st.Def, row)
 				ids = append(ids, a["id"])
 				got = append(got, a)
 			}
@@ -370,7 +402,7 @@ func runScenario(r *rand.Rand, scn int, nq, nwrites int, garble bool) ([]Ev, err
 	fdb.OnApply = func(evs []fakesql.Event) {
 		s.mu.Lock()
 		for _, e := range evs {
-			s.emit(Ev{Ev: "write", Before: absOrNone(e.Before), After: absOrNone(e.After)})
+			s.emit(Ev{Ev: "write", Before: absRow(e.Def, e.Before), After: absRow(e.Def, e.After)})
 		}
 		// the driver only issues statements whose row changes are all of one kind
 		s.pend = append(s.pend, pending{evs: toBinlog(evs[0].Def, "zoo", evs, s.tids), nrows: len(evs)})
@@ -423,8 +455,12 @@ func runScenario(r *rand.Rand, scn int, nq, nwrites int, garble bool) ([]Ev, err
 		garblesLeft = 1
 	}
 	altersLeft := 0
-	if r.Intn(4) == 0 {
+	if r.Intn(4) == 0 || dropDirected {
 		altersLeft = 1
+	}
+	var script []string
+	if dropDirected {
+		script = []string{"write", "alter"}
 	}
 	quiet := func() bool { // under s.mu
 		for _, q := range s.queries {
@@ -495,7 +531,11 @@ func runScenario(r *rand.Rand, scn int, nq, nwrites int, garble bool) ([]Ev, err
 			}
 			break
 		}
-		switch acts[r.Intn(len(acts))] {
+		act := acts[r.Intn(len(acts))]
+		if len(script) > 0 && len(parked) == 0 && writesLeft > 0 {
+			act, script = script[0], script[1:]
+		}
+		switch act {
 		case "release":
 			q := parked[r.Intn(len(parked))]
 			s.release(q)
@@ -506,7 +546,10 @@ func runScenario(r *rand.Rand, scn int, nq, nwrites int, garble bool) ([]Ev, err
 			writesLeft--
 			var err error
 			k := r.Intn(6)
-			if scn%2 == 0 && r.Intn(2) == 0 {
+			if dropDirected && len(script) == 1 {
+				k = 0 // the scripted first write: an insert ...
+			}
+			if scn%2 == 0 && r.Intn(2) == 0 && !(dropDirected && len(script) == 1) {
 				k = 5 // the directed scenarios lean towards statements that change several rows
 			}
 			switch {
@@ -515,6 +558,9 @@ func runScenario(r *rand.Rand, scn int, nq, nwrites int, garble bool) ([]Ev, err
 				_, err = conn.ExecContext(context.Background(), "UPDATE users SET small = ? WHERE org = ?", int64(r.Intn(2)), int64(1+r.Intn(2)))
 			case k == 0 || len(ids) == 0:
 				u := sqlzoo.RandomUser(r, nextID)
+				if dropDirected && len(script) == 1 {
+					u.Blob = []byte("k") // ... of a row the directed query has to show
+				}
 				ids = append(ids, nextID)
 				nextID++
 				_, err = db.InsertRow(context.Background(), u)
@@ -534,7 +580,13 @@ func runScenario(r *rand.Rand, scn int, nq, nwrites int, garble bool) ([]Ev, err
 			// ALTER TABLE ... ADD COLUMN: the table gets a new id; change events committed before it still have
 			// the old column count and may or may not be decodable depending on what the binlog has cached
 			altersLeft--
-			fdb.AlterAddColumn(sqlzoo.Table, fakesql.ColDef{Name: "extra", Type: fakesql.Int, Nullable: true})
+			if legacy {
+				// ALTER TABLE ... DROP COLUMN of a column in front of others: change events committed before it carry
+				// one value more per row than the table has columns now
+				fdb.AlterDropColumn(sqlzoo.Table, "legacy")
+			} else {
+				fdb.AlterAddColumn(sqlzoo.Table, fakesql.ColDef{Name: "extra", Type: fakesql.Int, Nullable: true})
+			}
 			s.mu.Lock()
 			s.emit(Ev{Ev: "alter"})
 			s.mu.Unlock()
